@@ -493,8 +493,8 @@ def layout_items(em, lay):
 
     def newline(depth):
         if lay.p_comment and rng.random() < lay.p_comment:
-            if out and out[-1] and not out[-1].endswith((" ", "\n", "\t")):
-                write(" ")
+            if out and out[-1] and not out[-1].endswith((" ", "\n", "\t")) and rng.random() < 0.6:
+                write(" ")       # otherwise the comment starts directly after the previous token
             comment()
         write(nl)
         while lay.p_blank and rng.random() < lay.p_blank:
